@@ -28,7 +28,7 @@ PAIRS = ['reuse', 'strip', 'gpu', 'gpu_ppo_to_ppi', 'gpu_memory', 'alloc_size', 
 
 def plan(tier, seed):
     q = tier == 'quick'
-    return [{'n': 25 if q else 450} for _ in range(16)]
+    return [{'n': 80 if q else 1600} for _ in range(16)]
 
 
 def conclude(agg):
